@@ -255,8 +255,11 @@ def check(ctx):
         if cfg != "F0":
             check_try(ctx, cfg, K_TRYB, True)
             check_from_iter(ctx, cfg, K_FROMB, K_TRYB)
-        # C07.D: builder liveness at foreign calls
+        # C07.W ("drops every item it pulled exactly once"): once the builder is finished (guard disarmed) the items are handed on before
+        # anything can return early or unwind - else the N items already pulled are leaked on that path
         from . import c04
+        c04.check_finish_window(ctx, cfg, "C07.W", only=(K_TRY, K_TRYB))
+        # C07.D: builder liveness at foreign calls
         db = ctx.db(cfg)
         a = ctx.analysis(cfg, K_TRY)
         if a is not None:
